@@ -6,6 +6,7 @@ and therefore independent of the calling sequence.
 """
 
 import ast
+import re
 
 from ..report import rule
 from .. import pm, norm, cfg as cfgmod, guards, matchers as M
@@ -721,7 +722,7 @@ def c01_r7(ctx):
     # the locals holding the encoded bounds: `start` is what terms_from() is given, `end` the one derived from self.end
     tf = [c for c in norm.calls_in(norm.inline_defs(lp.iter, f.node)) if norm.call_name(c) == "terms_from"]
     start = norm.canon(tf[0].args[1]) if tf and len(tf[0].args) > 1 else "start"
-    ends = [nm_ for nm_, vals in norm.assigned_names(f.node).items() if any(v is not None and "self.end" in norm.canon(v) for v in vals)]
+    ends = [nm_ for nm_, vals in norm.assigned_names(f.node).items() if any(v is not None and re.search(r"self\.end\b", norm.canon(v)) for v in vals)]
     end = ends[0] if len(ends) == 1 else "end"
 
     def has(facts, pol, *texts):
